@@ -61,6 +61,67 @@ def whnf(e, env, seen, trail):
             for k, v in e[1]: d[k] = (v, env2, ('let', id(e), k))
             e, env = e[2], env2; continue
         return e, env
+# ---- moved references (third round of seeds): an identifier fetched from one place — possibly already resolved there —
+# and assigned under an existing or a new key elsewhere must resolve by the scoping of its NEW position (exhaustive small family)
+if prop == 'C10':
+    import itertools
+    SRC_A = ['rec { v = 1; ref = v; }', 'let v = 1; in { ref = v; }', 'let v = 1; in rec { w = 5; ref = v; }']
+    DST_B = [('{ v = 2; ref = 0; }', (), 'RESERR'), ('let v = 2; in { ref = 0; }', (), '2'), ('rec { v = 2; ref = 0; }', (), '2'),
+             ('{ inner = { ref = 0; }; v = 2; }', ('inner',), 'RESERR'), ('let v = 2; in { inner = { ref = 0; }; }', ('inner',), '2'), ('{ ref = 0; }', (), 'RESERR')]
+    def res(x):
+        try:
+            v = x.value; g = v.rebuild().strip() if hasattr(v, 'rebuild') else repr(v); return g if g.isdigit() else '<other>'
+        except ResolutionError: return 'RESERR'
+        except Exception as ex: return 'EXC:' + type(ex).__name__
+    for A, (B, inner, exp), key, pre in itertools.product(SRC_A, DST_B, ['ref', 'nw'], [True, False]):
+        count('moved-reference/' + ('existing-key' if key == 'ref' else 'new-key'))
+        try:
+            a = parse(A); m = a['ref']
+            if pre: m.value
+            b = parse(B); tgt = b
+            for k in inner: tgt = tgt[k]
+            tgt[key] = m; got = res(tgt[key])
+        except Exception as ex: got = 'EXC:' + type(ex).__name__
+        if got != exp: viol.append({'doc': B, 'moved_from': A, 'key': list(inner) + [key], 'resolved_before_move': pre, 'what': 'a reference moved into another document resolves to %s; the scoping of its new position gives %s' % (got, exp)})
+    # the same inside one document: a reference moved from a rec set into a plain sibling
+    for key, pre in itertools.product(['ref', 'nw'], [True, False]):
+        count('moved-reference/sibling')
+        d = parse('{ left = rec { val = 1; ref = val; }; right = { val = 2; ref = 0; }; }')
+        m = d['left']['ref']
+        if pre: m.value
+        d['right'][key] = m; got = res(d['right'][key])
+        if got != 'RESERR': viol.append({'doc': d.rebuild(), 'key': ['right', key], 'resolved_before_move': pre, 'what': 'a reference moved into a plain sibling set resolves to %s (taken from the rec set it came from); nothing binds the name there' % got})
+# ---- sequences of edits through references on ONE document object (third round of seeds): every step must have the effect
+# it has on a fresh parse of the text the previous step printed — the defining binding is looked up anew each time
+if prop == 'C11':
+    from nix_manipulator.cli.manipulations import remove_value
+    def ap(src, op):
+        try: return ('ok', set_value(src, op[1], op[2]) if op[0] == 'set' else remove_value(src, op[1]))
+        except Exception as ex: return ('err', type(ex).__name__)
+    for it in range(N // 2):
+        doc = gen_doc(); text = show(doc) + '\n'
+        if doc[0] == 'let' and R.random() < 0.5:       # rec body under let layers: a new member shadows the let binding
+            body = doc
+            while body[0] == 'let': body = body[2]
+            text = text.replace(show(body), 'rec ' + show(body) if not body[1] else show(body), 1)
+        try: obj = parse(text)
+        except Exception: continue
+        cur = text; ops = []
+        for step in range(R.randint(2, 4)):
+            keys = re.findall(r"([a-e]) =", cur)
+            r = R.random()
+            if r < 0.6 and keys: op = ('set', R.choice(keys), str(R.randrange(100, 999)))
+            elif r < 0.8: op = ('set', R.choice(NAMES), R.choice([str(R.randrange(100, 999)), R.choice(NAMES)]))      # may create a shadowing binding or a new reference
+            elif keys: op = ('rm', R.choice(keys))
+            else: continue
+            ops.append(list(op)); count('sequence/' + op[0])
+            try: fresh = ap(parse(cur), op)
+            except Exception: break
+            same = ap(obj, op)
+            if same[0] != fresh[0] or (same[0] == 'ok' and ' '.join(same[1].split()) != ' '.join(fresh[1].split())):
+                viol.append({'doc': text, 'ops': ops[:], 'what': 'an edit on a document object that was edited before differs from the same edit on a fresh parse of the same text', 'same_object': same[1][:300], 'fresh_parse': fresh[1][:300]}); break
+            if same[0] != 'ok': continue
+            cur = fresh[1]
 for it in range(N):
     doc = gen_doc(); text = show(doc) + '\n'
     e, env = whnf(doc, [], set(), [])
